@@ -85,6 +85,7 @@ def w2_tasks(tier, seed, heavy=1):
     if tier == 'thorough':
         for sk, gk in F.t3_shards(1, 2, ['NAND2', 'XOR2', 'MUX21']): t.append(('w2', ('t3', 1, sk, gk), 0, 1, tier, seed))
         for sk, gk in F.t3_shards(0, 2, F.T3_KINDS_QUICK): t.append(('w2', ('t3', 2, sk, gk), 0, 1, tier, seed))
+        t = F.slice_t3_tasks(t, int(600 / heavy))
     return t
 
 
